@@ -155,7 +155,7 @@ def run_plan(plan, keep=False):
             resource.setrlimit(resource.RLIMIT_CORE, (0, 0))
         t0 = time.time()
         try:
-            r = subprocess.run(cmd, input=stdin, capture_output=True, timeout=120, preexec_fn=pre,
+            r = subprocess.run(cmd, input=stdin, capture_output=True, timeout=120 + 3 * len(plan.get("history", [])), preexec_fn=pre,
                                env={"PATH": os.environ.get("PATH", "/usr/bin:/bin")})
             code, err = r.returncode, r.stderr.decode("utf-8", "replace")
         except subprocess.TimeoutExpired:
@@ -310,7 +310,30 @@ def main(prop, args, build, log_):
             n = rng.choice([3, 4]) if not thorough else 4
             plans.append(gen_c17(seed, idx, [rng.randrange(len(CATALOGUE)) for _ in range(n)]))
             idx += 1
-        exhaustive_note = "all ordered selections of <= %d behaviours from a catalogue of %d (%d histories) + sampled histories of length 3-4" % (max_len, len(CATALOGUE), len(hs))
+        # long histories: anything that accumulates per failed connection (threads, descriptors, counters)
+        # needs many of them in one process life
+        n_long = 0
+        for _ in range(300 if thorough else 16):
+            n = rng.choice([20, 40, 100] + ([300] if thorough else []))
+            mix = rng.choice(["any", "any", "one_kind", "no_stall"])
+            if mix == "one_kind":
+                k = rng.randrange(len(CATALOGUE))
+                h = [k] * (min(n, 8) if CATALOGUE[k]["k"] == "stall" else n)
+            else:
+                h = [rng.randrange(len(CATALOGUE)) for _ in range(n)]
+                # at most 2 x 50 stalled connections stay open at once
+                stalls = 0
+                for j, b in enumerate(h):
+                    if CATALOGUE[b]["k"] == "stall":
+                        stalls += 1
+                        if stalls > 2 or mix == "no_stall":
+                            h[j] = (b + 1 + rng.randrange(len(CATALOGUE) - 1)) % len(CATALOGUE)
+                            if CATALOGUE[h[j]]["k"] == "stall":
+                                h[j] = 0
+            plans.append(gen_c17(seed, idx, h))
+            idx += 1
+            n_long += 1
+        exhaustive_note = "all ordered selections of <= %d behaviours from a catalogue of %d (%d histories) + sampled histories of length 3-4 + %d long histories of 20-%d behaviours" % (max_len, len(CATALOGUE), len(hs), n_long, 300 if thorough else 100)
     known = [k for k in parse_known() if k["property"] == prop]
     known_hits = {}
     for i, k in enumerate(known):
